@@ -54,10 +54,11 @@ def accessor_map(db):
         if fn.get("kind") not in ("method", "conversion", "method_operator"):
             continue
         u = fn["_unit"]
-        stm = (fn.get("body") or {}).get("ch", [])
+        # a trivially returning accessor: exactly one return, nothing else that has an effect (declarations are ignored)
+        stm = [x for x in (fn.get("body") or {}).get("ch", []) if x.get("k") not in ("decl", "null")]
         if len(stm) != 1 or stm[0].get("k") != "return":
             continue
-        t = T.norm(u, stm[0].get("e"))
+        t = T.snorm(u, fn, stm[0].get("e"))
         while isinstance(t, tuple) and t[0] in ("cast",):
             t = t[2]
         if isinstance(t, tuple) and t[0] == "m" and t[1] == ("this",):
